@@ -196,6 +196,20 @@ func (st *c07state) stringSummaries(scope map[*ssa.Function]bool) map[sumKey]boo
 					holds, n := true, 0
 					o := st.opts()
 					o.OnInstr = nil
+					// loops inside the helper (for s != "" && ... { s = s[1:] }): string loop variables are assumed
+					// no longer than their value at loop entry, and every back edge has to re-establish that
+					o.OnGeneralise = func(x *core.Explorer, f *ssa.Function, head *ssa.BasicBlock, phi *ssa.Phi, incoming, fresh *core.Term) {
+						if isStringType(phi.Type()) {
+							x.SetNote(fresh, incoming)
+						}
+					}
+					o.OnBackEdge = func(x *core.Explorer, f *ssa.Function, head *ssa.BasicBlock, phis []*ssa.Phi, old, nw []*core.Term, eval func(ssa.Value) *core.Term) {
+						for i, phi := range phis {
+							if isStringType(phi.Type()) && st.lenRelOf(x, nw[i], old[i], sums, 0) == relUnknown {
+								holds = false
+							}
+						}
+					}
 					st.c.explore("C07.progress", fn, o, func(p *core.Path) {
 						if p.End != core.EndReturn || k >= len(p.Results) {
 							return
@@ -254,30 +268,48 @@ func (st *c07state) progress(scope map[*ssa.Function]bool) {
 		assumed := map[*ssa.Phi]bool{}
 		for _, h := range heads {
 			for _, ins := range h.Instrs {
-				if phi, ok := ins.(*ssa.Phi); ok && isStringType(phi.Type()) {
+				if phi, ok := ins.(*ssa.Phi); ok && isCursorType(phi.Type()) {
 					assumed[phi] = true
 				}
 			}
+		}
+		// string loop variables of helpers that explore() inlines into fn (extracted by a later refactoring)
+		{
+			seenH := map[*ssa.Function]bool{fn: true}
+			var addHelpers func(g *ssa.Function, depth int)
+			addHelpers = func(g *ssa.Function, depth int) {
+				for callee := range c.P.Mod(g).Callees {
+					if seenH[callee] || !c.isNewHelper(callee, depth) {
+						continue
+					}
+					seenH[callee] = true
+					for _, h := range loopHeads(callee) {
+						for _, ins := range h.Instrs {
+							if phi, ok := ins.(*ssa.Phi); ok && isCursorType(phi.Type()) {
+								assumed[phi] = true
+							}
+						}
+					}
+					addHelpers(callee, depth+1)
+				}
+			}
+			addHelpers(fn, 1)
 		}
 		nonIncr := map[*ssa.Phi]bool{}
 		o := st.opts()
 		o.OnInstr = nil
 		o.OnGeneralise = func(x *core.Explorer, f *ssa.Function, head *ssa.BasicBlock, phi *ssa.Phi, incoming, fresh *core.Term) {
-			if f == fn && assumed[phi] {
+			if assumed[phi] {
 				x.SetNote(fresh, incoming)
 			}
 		}
 		o.OnBackEdge = func(x *core.Explorer, f *ssa.Function, head *ssa.BasicBlock, phis []*ssa.Phi, old, nw []*core.Term, eval func(ssa.Value) *core.Term) {
-			if f != fn {
-				return
-			}
 			in := infos[head]
-			if in == nil {
-				return
+			if f == fn && in != nil {
+				in.edges++
 			}
-			in.edges++
 			for i, phi := range phis {
-				if isStringType(phi.Type()) && st.lenRelOf(x, nw[i], old[i], sums, 0) == relUnknown {
+				if isCursorType(phi.Type()) && st.lenRelOf(x, nw[i], old[i], sums, 0) == relUnknown {
 					if os.Getenv("WSVERIF_DEBUG") != "" {
 						fmt.Fprintf(os.Stderr, "  unknown: %s new=%v old=%v\n", phi.Name(), nw[i], old[i])
 						t := nw[i]
@@ -298,12 +330,15 @@ func (st *c07state) progress(scope map[*ssa.Function]bool) {
 						}
 					}
 					nonIncr[phi] = false
-				} else if _, seen := nonIncr[phi]; !seen && isStringType(phi.Type()) {
+				} else if _, seen := nonIncr[phi]; !seen && isCursorType(phi.Type()) {
 					nonIncr[phi] = true
 				}
 			}
+			if f != fn || in == nil {
+				return // a loop of an inlined helper: only its string invariants matter here
+			}
 			for i, phi := range phis {
-				if !isStringType(phi.Type()) {
+				if !isCursorType(phi.Type()) {
 					continue
 				}
 				strict := st.lenRelOf(x, nw[i], old[i], sums, 0) == relLess
@@ -720,4 +755,17 @@ func (st *c07state) guardAlreadyFalse(x *core.Explorer, head *ssa.BasicBlock, ev
 	}
 	v, decided := x.Decide(x.Eq(cur, x.T.Const(nil, cur.Type)))
 	return decided && !v
+}
+
+// isCursorType: strings and byte slices can serve as shrinking cursors of a loop.
+func isCursorType(t types.Type) bool {
+	if isStringType(t) {
+		return true
+	}
+	if sl, ok := t.Underlying().(*types.Slice); ok {
+		if b, isB := sl.Elem().Underlying().(*types.Basic); isB && b.Kind() == types.Uint8 {
+			return true
+		}
+	}
+	return false
 }
